@@ -556,7 +556,7 @@ fn score_params<A: Alphabet, T: lightmotif::dense::MatrixElement>(
     rows: &Range<usize>,
 ) -> String {
     format!(
-        "K={},es={},L={},SR={},scap={},wrap={},M={},pcap={},a={},b={},sst={},pst={},dst={}",
+        "K={},es={},L={},SR={},scap={},wrap={},M={},pcap={},a={},b={},sst={},pst={},dst={},drows={},dcap={}",
         A::K::USIZE,
         std::mem::size_of::<T>(),
         seq.len(),
@@ -569,7 +569,9 @@ fn score_params<A: Alphabet, T: lightmotif::dense::MatrixElement>(
         rows.end,
         seq.matrix().stride(),
         pm.stride(),
-        out.stride()
+        out.stride(),
+        out.rows(),
+        out.capacity()
     )
 }
 
